@@ -59,6 +59,9 @@ def atomize(test, val):
     """(text, bool) atoms of `test` having the truth value `val` (not / and / or split where exact)"""
     if isinstance(test, ast.UnaryOp) and isinstance(test.op, ast.Not):
         return atomize(test.operand, not val)
+    if isinstance(test, ast.Call) and isinstance(test.func, ast.Name) and test.func.id == 'bool' and \
+       len(test.args) == 1 and not test.keywords:
+        return atomize(test.args[0], val)       # the truth value of bool(X) is the truth value of X
     if isinstance(test, ast.BoolOp) and ((isinstance(test.op, ast.And) and val) or
                                          (isinstance(test.op, ast.Or) and not val)):
         out = ()
@@ -502,6 +505,31 @@ class SymExec:
         names = {n.id for st in loop.body for n in ast.walk(st) if isinstance(n, ast.Name) and isinstance(n.ctx, ast.Store)}
         entered = [b for b in after_paths if b.conds[:len(before.conds)] == before.conds and
                    len(b.conds) > len(before.conds) and b.conds[len(before.conds)][0] == 'loop']
+        # lists filled in the loop body: what one iteration appended stands for "each element"
+        recv = {dotted(n.func.value) for st in loop.body for n in ast.walk(st) if isinstance(n, ast.Call) and
+                isinstance(n.func, ast.Attribute) and n.func.attr in ('append', 'extend')}
+        for v in sorted(x for x in recv if x):
+            init = before.env.get(v)
+            if not isinstance(init, ast.List) or not entered:
+                continue
+            it_ = self.subst(loop.iter, before.env)
+            for b in entered:
+                val = b.env.get(v)
+                if b.end is not None or not isinstance(val, ast.List) or len(val.elts) < len(init.elts) or \
+                   any(x is not y for x, y in zip(val.elts, init.elts)):
+                    b.env.pop(v, None)
+                    continue
+                added = val.elts[len(init.elts):]
+                new_ = []
+                for x in added:
+                    inner = x.value if isinstance(x, ast.Starred) else x
+                    e_ = ast.Starred(value=ast.Call(func=ast.Name(id='_each', ctx=ast.Load()), args=[inner, it_], keywords=[]),
+                                     ctx=ast.Load())
+                    if isinstance(x, ast.Starred):
+                        e_.value.args[0] = x.value      # each of (each of ...): nested
+                    e_._appended = getattr(x, '_appended', False)
+                    new_.append(e_)
+                b.env[v] = ast.List(elts=list(init.elts) + new_, ctx=ast.Load())
         for v in names:
             init = before.env.get(v)
             if init is None or not entered:
@@ -857,8 +885,9 @@ class SymExec:
             it0 = st.iter if getattr(st, '_iter_done', False) else self.subst(st.iter, p.env)
             it0 = _literal_items(it0)
             if isinstance(it0, (ast.Tuple, ast.List)) and len(it0.elts) <= 12 and \
-               not any(isinstance(x, ast.Starred) for x in it0.elts):
-                # a loop over a literal: executed element by element
+               not any(isinstance(x, ast.Starred) and not _is_each(x.value) for x in it0.elts):
+                # a loop over a literal: executed element by element; an entry *_each(E, IT) of the
+                # literal is a run of elements - the body is walked once for it, inside "each of IT"
                 paths = [p]
                 for item in it0.elts:
                     nxt = []
@@ -870,12 +899,28 @@ class SymExec:
                         for n in ast.walk(st.target):
                             if isinstance(n, ast.Name):
                                 q.env.pop(n.id, None)
-                        self._assign(st.target, item, q, None)
+                        run = None
+                        if isinstance(item, ast.Starred):
+                            run = norm(item.value.args[1])
+                            self._assign(st.target, item.value.args[0], q, None)
+                            q.conds = q.conds + (('loop', run),)
+                            saved_loops = q.loops
+                            q.loops = q.loops + (run,)
+                            before_run = q.fork()
+                        else:
+                            self._assign(st.target, item, q, None)
                         q.stores = [s_ for s_ in q.stores if s_[2] is not None]
-                        for b in self._block(st.body, [q]):
+                        done = self._block(st.body, [q])
+                        for b in done:
                             if b.end == 'continue':
                                 b.end = None
+                            if run is not None:
+                                b.loops = saved_loops
                             nxt.append(b)
+                        if run is not None:
+                            fake = ast.For(target=st.target, iter=item.value.args[1], body=st.body, orelse=[])
+                            before_run.conds = before_run.conds[:-1]
+                            self._summarise_accumulators(fake, before_run, done)
                     paths = nxt
                     if len(paths) > self.max_paths:
                         raise AnalysisError('%s: more than %d symbolic paths' % (self.func.qual, self.max_paths))
